@@ -209,3 +209,54 @@ def write_vcf_block(contig, start, stop, reference_path, bam_paths, maf, mad, in
     sample_cols = format_samples_columns(genotype_calls=None, genotype_probs=None, allele_depths=allele_depth, allele_keep=keep)
     table = pd.concat([table, sample_cols], axis=1)
     table.to_csv(sys.stdout, sep='\t', index=False, header=False)
+
+
+def write_vcf_header(command, reference_path, info_fields=None, format_fields=None, samples=None):
+    vcfversion_header = str(headermeta.fileformat('v4.3'))
+    date_header = str(headermeta.filedate())
+    source_header = str(headermeta.source())
+    command_header = str(headermeta.commandline(command))
+    with pysam.FastaFile(reference_path) as reference:
+        reference_header = str(headermeta.reference(reference.filename.decode()))
+        contig_header = '\n'.join((str(headermeta.ContigHeader(s, i)) for s, i in zip(reference.references, reference.lengths)))
+    components = [vcfversion_header, date_header, source_header, command_header, reference_header, contig_header]
+    if info_fields is not None:
+        info_header = '\n'.join([str(f) for f in info_fields])
+        components += [info_header]
+    if format_fields is not None:
+        format_header = '\n'.join([str(f) for f in format_fields])
+        components += [format_header]
+    columns_header = ['CHROM', 'POS', 'ID', 'REF', 'ALT', 'QUAL', 'FILTER', 'INFO']
+    if samples is not None:
+        columns_header += ['FORMAT'] + list(samples)
+    columns_header = '#' + '\t'.join(columns_header)
+    components += [columns_header]
+    string = '\n'.join(components) + '\n'
+    sys.stdout.write(string)
+
+
+def main(command):
+    parser = argparse.ArgumentParser('WARNING this tool is experimental')
+    args = [arguments.basis_targets, arguments.reference, arguments.bam, arguments.find_snvs_maf, arguments.find_snvs_mad, arguments.find_snvs_ind_maf, arguments.find_snvs_ind_mad, arguments.find_snvs_min_ind, arguments.read_group_field, arguments.mapping_quality, arguments.skip_duplicates, arguments.skip_qcfail, arguments.skip_supplementary]
+    for arg in args:
+        arg.add_to(parser)
+    if len(command) < 3:
+        parser.print_help()
+        sys.exit(1)
+    args = parser.parse_args(command[2:])
+    bed_path = args.targets[0]
+    bed = pd.read_table(bed_path, header=None)[[0, 1, 2]]
+    bed.columns = ['contig', 'start', 'stop']
+    reference_path = args.reference[0]
+    samples, sample_bams = arguments.parse_sample_bam_paths(args.bam, None, args.read_group_field[0], reference_path=reference_path)
+    samples = np.array(samples)
+    bam_paths = np.array([sample_bams[s][0][1] for s in samples])
+    samples_found = bam_samples(bam_paths, reference_path, tag=args.read_group_field[0]).astype('U')
+    mismatch = samples_found != samples
+    if np.any(mismatch):
+        raise IOError('Samples ({}) did not match bam files ({})'.format(samples[mismatch], bam_paths[mismatch]))
+    info_fields = [infofields.REFMASKED, infofields.AD, infofields.ADMF]
+    format_fields = [formatfields.GT, formatfields.AD]
+    write_vcf_header(command, reference_path, samples=samples, info_fields=info_fields, format_fields=format_fields)
+    for _, interval in bed.iterrows():
+        write_vcf_block(interval.contig, interval.start, interval.stop, reference_path, bam_paths, maf=args.maf[0], mad=args.mad[0], ind_maf=args.ind_maf[0], ind_mad=args.ind_mad[0], min_ind=args.min_ind[0], mapping_quality=args.mapping_quality[0], skip_duplicates=args.skip_duplicates, skip_qcfail=args.skip_qcfail, skip_supplementary=args.skip_supplementary)
